@@ -138,10 +138,12 @@ fn replay(cases_path: &str, out_path: &str) {
 }
 
 fn random_msg(rng: &mut Rng, sjis: bool) -> String {
+    // besides the escape-relevant characters: look-alikes of the backslash that a codec might fold onto it
+    // (U+00A5 yen sign, U+FF3C full-width backslash, U+2216 set minus)
     let alpha: &[char] = if sjis {
-        &['a', '\\', 'n', '\n', 'あ', 'ソ']
+        &['a', '\\', 'n', '\n', 'あ', 'ソ', '\u{A5}', '\u{FF3C}']
     } else {
-        &['a', '\\', 'n', '\n', 'あ', '\u{1F600}']
+        &['a', '\\', 'n', '\n', 'あ', '\u{1F600}', '\u{A5}', '\u{FF3C}', '\u{2216}']
     };
     let n = if rng.chance(1, 8) { 0 } else { rng.range(1, 8) };
     let mut s = String::new();
@@ -201,6 +203,12 @@ fn record(out_path: &str, runs: usize, len: usize, very_long: usize) {
                 json!({"op": "settitle", "k": "", "m": [], "t": if rng.chance(1, 2) { "Title" } else { "" }})
             } else {
                 json!({"op": "reparse", "k": "", "m": [], "t": ""})
+            };
+            // the legacy format stores Shift-JIS: a re-parse is the identity only for text the codec represents losslessly
+            let ev = if ev["op"] == "reparse" && fmt.starts_with("sjis") && !objs[o].get_entries().iter().all(|(k2, m)| sjis_lossless(k2) && sjis_lossless(m)) {
+                json!({"op": "get", "k": k, "m": [], "t": ""})
+            } else {
+                ev
             };
             // store-back of a looked-up message (the C07 no-op law) now and then
             let ev = if r >= 60 && r < 64 {
@@ -463,7 +471,11 @@ fn format_record(out_path: &str, n: usize, max_entries: usize) {
         }
         let ne = if run % 7 == 0 { 0 } else { rng.range(1, max_entries) };
         for k in 0..ne {
-            let key = if rng.chance(1, 10) { random_text(&mut rng, "sjis") } else { format!("MID_{}_{}", run, k) };
+            // keys related by suffix (a later key is the tail of an earlier one, and the other way round), with single- and
+            // double-byte heads: a writer that shares name storage must count encoded bytes
+            let key = if run % 4 == 3 && k < 4 {
+                match k { 0 => format!("MP_剣_Name{}", run), 1 => format!("Name{}", run), 2 => format!("e{}", run), _ => format!("ソｱName{}", run) }
+            } else if rng.chance(1, 10) { random_text(&mut rng, "sjis") } else { format!("MID_{}_{}", run, k) };
             if !sjis_lossless(&key) {
                 continue;
             }
